@@ -56,7 +56,7 @@ ASSUMPTIONS = [
     "git: directories are not tracked: the disk is compared without directories; file ids are not compared; symlinks and exec bits are",
     "the versioned set, kinds, contents, exec bits and ids are compared; the kind the dirstate had recorded for an entry, pending-merge parents and merge-hashes are not",
     "text merges never run here (no law lets both sides change one file differently): WeaveMerger / LCAMerger differ from Merge3Merger only in entry enumeration and options; C19 covers the text merge",
-    "guards (reported defects; lifted in a share of the runs once known_findings.json has an open entry [C17, known-defect, <guard>], or with VERIF_UNGUARDED=1): git_symlink_replaced = no git THIS tree in which a tracked symlink has been replaced by a file or directory (GitWorkingTree.iter_entries_by_dir / iter_references raise OSError EINVAL from readlink, so every merge into such a tree fails); git_dir_file_swap = no git merge in which one path is a directory in one of BASE / OTHER / THIS (incl. unversioned files of THIS) and a file or symlink in another (path-keyed trans ids: the merge reports bogus conflicts or raises NoSuchFile); git_dir_rename = no git batch renames or moves a directory (the same directory rename on both sides, uncommitted in THIS, is reported as 'Text conflict in <new dir>')",
+    "guards (reported defects; lifted in a share of the runs once known_findings.json has an open entry [C17, known-defect, <guard>], or with VERIF_UNGUARDED=1): git_symlink_replaced = no git THIS tree in which a tracked symlink has been replaced by a file or directory (GitWorkingTree.iter_entries_by_dir / iter_references raise OSError EINVAL from readlink, so every merge into such a tree fails); git_dir_file_swap = no git merge in which one path is a directory in one of BASE / OTHER / THIS (incl. unversioned files of THIS) and a file or symlink in another (path-keyed trans ids: the merge reports bogus conflicts or raises NoSuchFile); git_dir_rename = no git batch renames or moves a directory (the same directory rename on both sides, uncommitted in THIS, is reported as 'Text conflict in <new dir>'); git_untracked_in_emptied_dir = no git merge in which OTHER removes the last tracked file of a directory that holds untracked files or directories in THIS (the 'deleting parent' problem is returned as 'Text conflict in <dir>' although nothing conflicts)",
     "git: BASE has no empty directories (untracked; a merge that deletes the last tracked file of their parent reports a 'deleting parent' problem as 'Text conflict in <dir>')",
     "if building BASE / THIS / OTHER itself raises or disagrees with the treesim model the run is abandoned (probe setup_abandoned): that is C09's property",
     "runs execute in-process (ISOLATION=thread): each run builds both trees, models and the Sim from scratch",
@@ -65,7 +65,7 @@ STEP_CAP = 400000
 ISOLATION = "thread"
 
 # states that run into defects already reported; see ASSUMPTIONS
-GUARDS = ("git_symlink_replaced", "git_dir_file_swap", "git_dir_rename")
+GUARDS = ("git_symlink_replaced", "git_dir_file_swap", "git_dir_rename", "git_untracked_in_emptied_dir")
 P_UNGUARDED = float(os.environ.get("VERIF_UNGUARDED", "0") or 0)
 P_LIFT = 0.15
 LAWS = ["other_is_base", "this_is_base", "identical", "disjoint", "disjoint"]
@@ -218,6 +218,15 @@ def guarded_state(m_this, m_base=None, m_other=None):
     for m in (m_base, m_other):
         if m is not None:
             views.append(_dirs_nondirs((p, e[1]) for p, e in m.basis.items() if p))
+    if m_base is not None and m_other is not None:
+        # a directory whose last tracked file OTHER removed, holding untracked things in THIS
+        base_dirs = {a for p in m_base.basis if p for a in T.ancestors(p) if a}
+        other_dirs = {a for p in m_other.basis if p for a in T.ancestors(p) if a}
+        tracked_dirs = {a for p in m_this.inv for a in T.ancestors(p) if a}
+        untracked = [p for p in m_this.disk if p not in m_this.inv and p not in tracked_dirs]
+        for d in base_dirs - other_dirs:
+            if any(T.strictly_inside(d, u) for u in untracked):
+                return "git_untracked_in_emptied_dir"
     for i, (d1, _n1) in enumerate(views):
         for j, (_d2, n2) in enumerate(views):
             if i != j and d1 & n2:
